@@ -608,11 +608,15 @@ unsafe fn do_spawn<F: PreExec>(
             }
             Err(ref e) if matches!(e.code, Some(Errno::EINTR)) => {}
             Err(e) => {
+                // The program may be running and waiting for its stdin to end, let go of our
+                // ends of its pipes before waiting for it
+                drop(ours);
                 let _ = process.wait();
                 return Err(e.into());
             }
             Ok(..) => {
                 // pipe I/O up to PIPE_BUF bytes should be atomic
+                drop(ours);
                 let _ = process.wait();
                 return Err(Error::no_code("Short read on the CLOEXEC pipe"));
             }
